@@ -151,18 +151,19 @@ end Spec
 
 /-! ## the histories `C06_patricia_partial` covers -/
 
-/-- Put, Get, DeleteAll and the ordered-map queries (no Delete/DeleteMin/DeleteMax, no prefix/pattern query) -/
+/-- everything except Delete / DeleteMin / DeleteMax -/
 def Op.patriciaScope : Op V → Bool
-  | .delete _ | .deleteMin | .deleteMax | .withPrefix _ | .longestPrefixOf _ | .match _ => false
+  | .delete _ | .deleteMin | .deleteMax => false
   | _ => true
 
-/-- `Put k` stores a key whose bits stay below the length positions of `bitString`
-(`8 * len(k) ≤ lenPos = 2^30`, i.e. keys shorter than 128 MiB); other operations: no condition -/
+/-- `Put k` stores a non-empty key whose bits stay below the length positions of `bitString`
+(`8 * len(k) ≤ lenPos = 2^30`, i.e. keys shorter than 128 MiB); `WithPrefix p`: `p` is that short -/
 def Op.smallKeys : Op V → Bool
-  | .put k _ => decide (8 * k.length ≤ BitString.lenPos)
+  | .put k _ => !k.isEmpty && decide (8 * k.length ≤ BitString.lenPos)
+  | .withPrefix p => decide (8 * p.length ≤ BitString.lenPos)
   | _ => true
 
-/-- a history in scope whose stored keys are that small -/
+/-- a history in scope whose stored keys are non-empty and that small -/
 def PatriciaHistory : List (Op V) → Bool
   | [] => true
   | op :: ops => op.patriciaScope && op.smallKeys && PatriciaHistory ops
